@@ -273,3 +273,89 @@ func tail(s string, n int) string {
 }
 
 var _ = io.EOF
+
+// RunTraceValidation validates records with a Trace_* module, sharded over several TLC processes so that no JVM has to
+// hold more than shardSize records (a 50k-record file in one process ends in GC thrashing).
+func RunTraceValidation(scratch, module string, recs []json.RawMessage, timeout time.Duration) (*TLCResult, error) {
+	shardSize := 1200
+	if v := os.Getenv("VERIF_SHARD"); v != "" {
+		if n, e := strconv.Atoi(v); e == nil && n > 0 {
+			shardSize = n
+		}
+	}
+	nsh := (len(recs) + shardSize - 1) / shardSize
+	if nsh < 1 {
+		nsh = 1
+	}
+	par := 4
+	if nsh < par {
+		par = nsh
+	}
+	wk := nWorkers() / par
+	if wk < 2 {
+		wk = 2
+	}
+	results := make([]*TLCResult, nsh)
+	errs := make([]error, nsh)
+	sem := make(chan struct{}, par)
+	done := make(chan int, nsh)
+	for i := 0; i < nsh; i++ {
+		go func(i int) {
+			sem <- struct{}{}
+			defer func() { <-sem; done <- i }()
+			dir := filepath.Join(scratch, fmt.Sprintf("shard%d", i))
+			if err := os.MkdirAll(dir, 0o755); err != nil {
+				errs[i] = err
+				return
+			}
+			if err := copySpecs(dir); err != nil {
+				errs[i] = err
+				return
+			}
+			lo, hi := i*shardSize, (i+1)*shardSize
+			if hi > len(recs) {
+				hi = len(recs)
+			}
+			if err := writeNDJSON(filepath.Join(dir, "trace.ndjson"), recs[lo:hi]); err != nil {
+				errs[i] = err
+				return
+			}
+			results[i], errs[i] = RunTLC(dir, TLCOpts{Module: module, Workers: wk, Timeout: timeout, Defines: map[string]string{"K": strconv.Itoa(wk)}, HeapGB: 8})
+			if os.Getenv("VERIF_KEEP") == "" {
+				os.Remove(filepath.Join(dir, "trace.ndjson"))
+			}
+		}(i)
+	}
+	for i := 0; i < nsh; i++ {
+		<-done
+	}
+	merged := &TLCResult{Verdicts: map[string]map[string]bool{}, Stats: map[string][]int{}, OK: true}
+	var firstErr error
+	for i := 0; i < nsh; i++ {
+		if errs[i] != nil && firstErr == nil {
+			firstErr = errs[i]
+		}
+		r := results[i]
+		if r == nil {
+			merged.OK = false
+			continue
+		}
+		for t, v := range r.Verdicts {
+			merged.Verdicts[t] = v
+		}
+		for t, v := range r.Stats {
+			merged.Stats[t] = v
+		}
+		merged.Diags = append(merged.Diags, r.Diags...)
+		merged.Generated += r.Generated
+		merged.Distinct += r.Distinct
+		if r.WallS > merged.WallS {
+			merged.WallS = r.WallS
+		}
+		if !r.OK {
+			merged.OK = false
+			merged.Out += r.Out
+		}
+	}
+	return merged, firstErr
+}
